@@ -310,7 +310,7 @@ func (OracleC07) sharesWithin(x *Exec, pre, post *Snap, d DelSnap, pk posKey, to
 		x.Label("c07:destination-total-below-one-share")
 		return removed.Cmp(full) <= 0
 	}
-	if orphanedValidator(pre, pk.Denom) || degenerateAsset(pre, pk.Denom) {
+	if x.PrecisionCollapsed(pk.Denom) || orphanedValidator(pre, pk.Denom) || degenerateAsset(pre, pk.Denom) {
 		x.Label("c07:ownerless-value-state")
 		return removed.Cmp(full) <= 0 // no meaningful share price (listed finding F-C04a); only the cap applies
 	}
